@@ -350,6 +350,8 @@ def family_lean(F, ns):
         o.append("")
     o.append("/-- the nested `decode_bits!` invocation of `decode` -/")
     o.append("def trie : JetTrie :=\n  " + lean_trie(F["trie"], 3))
+    o.append("")
+    o.append("def family : JetTable.Family := ⟨rows, keys, enc, parseArms, trie⟩")
     o.append(f"end Gen.{ns}")
     return "\n".join(o) + "\n"
 
@@ -611,16 +613,6 @@ def c_lean(E, C):
     o.append("def keys : List (Nat × Nat × Nat × Nat) := [")
     o.append(",\n".join(f"  ({key(rows[e]['jet'])}, {key(name_of(tystruct[rows[e]['src']]))}, {key(name_of(tystruct[rows[e]['tgt']]))}, {key(e.lower())})" for e in enum))
     o.append("]")
-    o.append("")
-    o.append("/-- the C type table: primitiveEnumTy.inc order; 0 = ONE, (1, a, b) = SUM, (2, a, b) = PRODUCT of earlier entries -/")
-    ix = {n: i for i, n in enumerate(tynames)}
-    tl = []
-    for n in tynames:
-        k, a, b = tydefs[n]
-        tl.append("(0, 0, 0)" if k == "ONE" else f"({1 if k == 'SUM' else 2}, {ix[a]}, {ix[b]})")
-    o.append("def tyTable : List (Nat × Nat × Nat) := [" + ", ".join(tl) + "]")
-    o.append("/-- (sourceIx, targetIx) of every jet -/")
-    o.append("def tyIx : List (Nat × Nat) := [" + ", ".join(f"({ix[rows[e]['src']]}, {ix[rows[e]['tgt']]})" for e in enum) + "]")
     o.append("")
     o.append("/-- decodePrimitive: family bit (false = decodeCoreJets.inc, true = decodeElementsJets.inc) and the naturals")
     o.append("    read by the nested `decodeUptoMaxInt` switches on the way to each jet -/")
